@@ -106,15 +106,17 @@ class Unknown(object):
 
 
 class Namespace(MutableMapping):
-    def __init__(self, parent=None, inline=False):
+    def __init__(self, parent=None, inline=False, lazy=False):
         self.parent = parent
         self.names = {}
         self.nonlocals = {}
         self.immutables = set()
         # comprehensions have names of their own but run in place; code in
-        # nested functions runs at some later point
+        # nested functions runs at some later point, and so does a
+        # generator expression (when it is consumed)
         self.inline = inline
-        self.deferred = parent is not None and (parent.deferred or not inline)
+        self.deferred = parent is not None and (
+            parent.deferred or not inline or lazy)
 
     def __getitem__(self, name):
         ns = self.nonlocals.get(name, self)
@@ -300,9 +302,18 @@ class CallListerVisitor(ast.NodeVisitor):
     def visit_comprehension_expr(self, node):
         # the for clauses bind their targets before the element is evaluated,
         # and those names only exist inside the comprehension
-        self.namespace = Namespace(self.namespace, inline=True)
-        for generator in node.generators:
-            self.visit(generator)
+        lazy = isinstance(node, ast.GeneratorExp)
+        if lazy:
+            # only the first iterable is evaluated on the spot
+            self.visit(node.generators[0].iter)
+        self.namespace = Namespace(self.namespace, inline=True, lazy=lazy)
+        for i, generator in enumerate(node.generators):
+            if lazy and i == 0:
+                self.visit(generator.target)
+                for cond in generator.ifs:
+                    self.visit(cond)
+            else:
+                self.visit(generator)
         for field in ('elt', 'key', 'value'):
             child = getattr(node, field, None)
             if child is not None:
